@@ -80,8 +80,14 @@ def evaluate(task, root):
         scn['seed'] = task['seed']
         scn['index'] = task['index']
     scn = resolve_traces(scn, root)
-    rec = harness.execute(scn, root)
-    viols = prof.check(rec)
+    ctx = prof.prepare(scn, root) if hasattr(prof, 'prepare') else None
+    try:
+        rec = harness.execute(scn, root)
+        rec['ctx'] = ctx
+        viols = prof.check(rec)
+    finally:
+        if ctx is not None:
+            prof.cleanup(ctx)
     st = prof.stats(rec, viols)
     out = {'digest': rec['digest'], 'violations': viols, 'stats': st,
            'sim_time': rec['sim_time'], 'n_events': rec['n_events'],
